@@ -4,10 +4,10 @@ import core
 from props import solve_common
 
 
-def run_tree(ctx, prop, prop_file, bits, what, rule_extra, assumptions, ninst=1, n_quick=70, n_thorough=2500):
+def run_tree(ctx, prop, prop_file, bits, what, rule_extra, assumptions, ninst=1, n_quick=70, n_thorough=2500, hooks=False, extra=None):
     core.check_prop_file(ctx, prop_file)
     scs, stats = solve_common.run_generic(ctx, prop, bits=bits, what=what, n_quick=n_quick, n_thorough=n_thorough,
-                                          tree=True, hist=True, ninst=ninst)
+                                          tree=True, hist=True, ninst=ninst, hooks=hooks, extra=extra)
     ncalls = stats["evaluations"]
     ctx.coverage.update({
         "evaluations": ncalls,
